@@ -1,6 +1,7 @@
 import Chrono.Drv.Util
 import Chrono.Drv.Zoned
 import Chrono.Model.ZonedDerived
+import Chrono.Model.ZonedConv
 import Chrono.Model.Rfc3339
 import Chrono.Model.Rfc2822
 import Chrono.Model.TextForms
@@ -19,6 +20,14 @@ import Chrono.Model.SerdeStr
       range) through `from_local_datetime` (nanosecond field 0 and 10⁹) and `with_ymd_and_hms` — the exact
       boundary of "the other representation leaves the range", for EVERY offset
   * `znf.tz y s f o` → `to_utc | fixed_offset | naive_utc | from_naive_utc_and_offset(naive_utc, offset)`
+  Second audit (2026-09-30), Model/ZonedConv.lean:
+  * `znf.dn y s f o` → `date_naive() | date()` (deprecated; `Date::naive_utc()` and its offset): `yof` / `yof off` / `panic`
+  * `znf.conv y s f o` → `DateTime<FixedOffset>::from(DateTime<Utc> of the UTC reading) | DateTime<Utc>::from(value) |
+      naive_utc.and_utc() | DateTime::from_utc(naive_utc, offset)` (deprecated)
+  * `znf.fromlocal y s f o` (a NAIVE reading + offset) → `and_local_timezone(offset) | DateTime::from_local(l, offset)`
+      (deprecated, panicking)
+  * `znf.daysop add|sub y s f o n` → `value + Days(n)` / `value - Days(n)`: value or `panic`
+  * `znf.ordshape y1 s1 f1 y2 s2 f2` → derived `Ord` / `Hash` of `NaiveDateTime`: `cmp | hash words of the first`
 -/
 namespace Chrono.Drv.ZonedFmt
 open Chrono Chrono.M Chrono.Drv
@@ -101,6 +110,21 @@ def handle (op : String) (args : List String) : Option String :=
   | "znf.tz", [y, s, f, o] => some ((z? [y, s, f, o]).elim bad fun z =>
       joinSp [showZ z.to_utc, "|", showZ z.fixed_offset, "|", showN z.naive_utc, "|",
         showZ (M.Zoned.from_naive_utc_and_offset z.naive_utc z.off)])
+  | "znf.dn", [y, s, f, o] => some ((z? [y, s, f, o]).elim bad fun z =>
+      joinSp [showRes (fun (d : M.Date) => toString d.yof) z.date_naive, "|",
+        showRes (fun (p : M.Date × Int) => s!"{p.1.yof} {p.2}") z.date_deprecated])
+  | "znf.conv", [y, s, f, o] => some ((z? [y, s, f, o]).elim bad fun z =>
+      joinSp [showRes showZ (M.Zoned.fixed_from_utc (M.Zoned.and_utc z.utc)), "|", showZ z.utc_from_fixed, "|",
+        showZ (M.Zoned.and_utc z.utc), "|", showZ (M.Zoned.from_utc_deprecated z.utc z.off)])
+  | "znf.fromlocal", [y, s, f, o] => some ((z? [y, s, f, o]).elim bad fun z =>
+      joinSp [showRes (showOpt showZ) (M.Zoned.and_local_timezone z.utc z.off), "|",
+        showRes showZ (M.Zoned.from_local_deprecated z.utc z.off)])
+  | "znf.daysop", [dir, y, s, f, o, n] => some (match z? [y, s, f, o], int? n with
+      | some z, some n => showRes showZ (if dir = "add" then z.add_days_op n else z.sub_days_op n)
+      | _, _ => bad)
+  | "znf.ordshape", [y1, s1, f1, y2, s2, f2] => some (match z? [y1, s1, f1, "0"], z? [y2, s2, f2, "0"] with
+      | some a, some b => joinSp [toString (NaiveDT.cmp a.utc b.utc), "|", joinSp (a.utc.hashWords.map toString)]
+      | _, _ => bad)
   | _, _ => none
 
 end Chrono.Drv.ZonedFmt
